@@ -433,6 +433,46 @@ def replay_mapping(ctx, case):
         ctx.disagreement(case, f"children written as one mapping: {str(r2[1])[:160]}; as a list: {str(r1[1:2])[:160]}")
 
 
+def deref_alternative_laws(ctx, ws):
+    """Alternatives inside a $deref field, with every mix of signs and spellings (negative, positive, with and without 0x, quoted and
+    as YAML integers; registers with and without %): the addresses reported for `field: {$or: [a, b, ...]}` are exactly the union of
+    the addresses reported for `field: a`, `field: b`, ... (composition law, no model; identical at every seed)."""
+    from jv import listing as L, real
+    rows = [("mov", ["0x8(%rbp)", "%rax"]), ("mov", ["-0x8(%rbp)", "%rax"]), ("mov", ["-0x10(%rbp)", "%rax"]), ("mov", ["0x10(%rbp)", "%rax"]), ("mov", ["(%rbp)", "%rax"]),
+            ("mov", ["0x8(%rsp)", "%rax"]), ("mov", ["0x8(%rbp,%rcx,4)", "%rax"]), ("mov", ["-0x8(%rbp,%rdx,8)", "%rax"]), ("mov", ["0x18(%rbp,%rcx,2)", "%rax"]), ("ret", [])]
+    insts, addr = [], 0x401000
+    for m, ops in rows:
+        insts.append(L.SInst(addr, m, list(ops), None, None, 4))
+        addr += 4
+    lp = ws.write("dalt.s", L.render(insts, ctx.rng, labels=False))
+
+    def hits(deref):
+        rule = real.dump_rule({"pattern": [{"mov": [{"$deref": deref}, "%rax"]}]})
+        r = real.match(ws.write("dalt.yaml", rule), lp, ret="list", search="all", only_addr=True)
+        ctx.ran()
+        return rule, (sorted(r[1]) if r[0] == "ok" else ("exc", r[1]))
+    cells = []
+    for alts in (["-0x8", 8], ["-8", "0x10"], [8, "-0x10"], ["-0x8", "-0x10"], ["0x8", "0x10"], [8, 10], ["-0x8", "0x8", "-0x10", 10], ["0x8", "-8"], [-8, 8], ["-0x10", "8"]):
+        cells.append(("constant_offset", {"main_reg": "rbp"}, alts))
+    for alts in (["rbp", "%rsp"], ["%rbp", "rsp"], ["rsp", "rbp"]):
+        cells.append(("main_reg", {"constant_offset": "0x8"}, alts))
+    for alts in ([4, "0x8"], ["4", 2], [8, 2, "0x4"]):
+        cells.append(("constant_multiplier", {"main_reg": "rbp", "register_multiplier": [{"$or": ["rcx", "rdx"]}], "constant_offset": [{"$or": ["0x8", "-0x8", "0x18"]}]}, alts))
+    for field, rest, alts in cells:
+        rule, whole = hits({**rest, field: [{"$or": list(alts)}]})          # the spelling of tests/yamls/logic_operators_inside_deref.yaml
+        parts = [hits({**rest, field: a})[1] for a in alts]
+        ctx.event("deref_alternative_laws_judged")
+        ctx.case(("deref-alt", field, str(alts)), True, stratum="alternatives inside a $deref field", outcome="found" if whole and whole[0] != "exc" else "not found")
+        if any(isinstance(p, tuple) for p in parts) or isinstance(whole, tuple):
+            if isinstance(whole, tuple) != all(isinstance(p, tuple) for p in parts):
+                ctx.disagreement({"deref_alt": True, "rule": rule, "field": field, "alts": [str(a) for a in alts]}, f"{field}: $or {alts}: the group gives {whole}, its alternatives alone give {parts}")
+            continue
+        union = sorted(set(x for p in parts for x in p))
+        if whole != union:
+            ctx.disagreement({"deref_alt": True, "rule": rule, "field": field, "alts": [str(a) for a in alts]},
+                             f"{field}: $or {alts} is reported at {whole}; its alternatives alone are reported at {parts} (union {union})")
+
+
 def run_shard(ctx):
     d = drive.Driver(ctx, feat, flags="random", styles=("mixed", "runs", "dups"))
     d.loop(3000, 250000)
@@ -446,11 +486,16 @@ def run_shard(ctx):
         repeated_group_stratum(ctx, d)
     if ctx.shard == 5 % ctx.nshards:
         mapping_spelling_stratum(ctx, d.ws)
+    if ctx.shard == 4 % ctx.nshards:
+        deref_alternative_laws(ctx, d.ws)
 
 
 def replay(ctx, case):
     if case.get("mapping_spelling"):
         return replay_mapping(ctx, case)
+    if case.get("deref_alt"):
+        from jv import real
+        return deref_alternative_laws(ctx, real.Workspace())
     if case.get("desc") == "law":
         return replay_law(ctx, case)
     drive.replay_dsl(ctx, case)
